@@ -208,3 +208,29 @@ def run(ctx):
             if not ok:
                 ctx.cov['correspondence']['disagreements'] += 1
                 ctx.broken('correspondence-broken', {'spec': sp, 'theorem_or_correspondence': 'Portfolio.setup_split_optim_problem vs Split.split_map: ' + nm})
+    # the two-stage problem make_slp assembles from a portfolio problem: its mapping (one copy of every future variable per sample) against
+    # SLPProofs.slp_map; assets with several mapping rows per variable stored apart (second node of a transport, commodity factors)
+    import random as _rnd
+    slp = gen.gen_many(ctx.seed, 10 if ctx.tier == 'quick' else 60, dict(CFG, p_coarse=0.2, p_periodic=0.0, p_gap=0.0, T=(4, 7), nodes=(2, 3), n_assets=(2, 4),
+                                                                        kinds={'Transport': 4, 'MultiCommodityContract': 2, 'SimpleContract': 2, 'Storage': 1}), 'c07slp_')
+    for sp in slp:
+        rng = _rnd.Random(str(sp['seed']) + '/slp')
+        sp['opts']['slp'] = {'n': rng.randint(1, 3), 'kf': rng.randint(1, sp['grid']['T'] - 1), 'identical': False, 'robust_without_grid': False}
+    slp = ctx.specs(slp)
+    mexprs, mowners = [], []
+    for sp, o in zip(slp, C.run_impl('slp', slp) if slp else []):
+        if o.get('status') != 'ok' or o.get('slp_mapping') is None or o.get('future') is None or 'cost_samples' not in o:
+            continue
+        ctx.count('two-stage problems checked')
+        nv = len(o['slp']['c'])
+        if any(not (0 <= r['index'] < nv) for r in o['slp_mapping']):
+            ctx.violation('impl-violation', {'spec': sp, 'observed': {'mapping of the two-stage problem points outside its variables': [max(r['index'] for r in o['slp_mapping']), nv]},
+                                             'expected': 'every mapping row points to an existing variable'}, trigger={'what': 'slp mapping index'})
+        mexprs.append('(c17_map_case %s %s %s %s %s)' % (C.mapping(o['base']['mapping']), C.lst([C.b(b) for b in o['future']]), C.nat(len(o['cost_samples'])),
+                                                        C.nat(len(o['base']['c'])), C.mapping(o['slp_mapping'])))
+        mowners.append(sp)
+    for sp, ok in zip(mowners, C.run_coq_exprs('C07m', 'Num LP Cert Mapping Dcf Grid Assets Periodic Portfolio Corr Build', mexprs, chunk=6)):
+        ctx.cov['correspondence']['cases'] += 1
+        if not ok:
+            ctx.cov['correspondence']['disagreements'] += 1
+            ctx.broken('correspondence-broken', {'spec': sp, 'theorem_or_correspondence': 'make_slp mapping vs SLPProofs.slp_map (C17_extended_mapping_wf / _matches_columns)'})
